@@ -15,3 +15,5 @@ open Gossamer.C38
 #print axioms C38_block_counterexample
 #print axioms C38_state_rep
 #print axioms C38_refines_partial
+#print axioms C38_history
+#print axioms C38_pages_at_partial
